@@ -514,6 +514,21 @@ def run(ctx):
            'and the alignment is undone in reverse order with negated angles; found %s'
            % (z_align, y_align, tail), mod, fn)
     check_undo_paths(ctx, 'C20.R3', mod, fn, vec, angle)
+    # the alignment angles are computed in a well-conditioned way: asin/acos of a
+    # normalised ratio lose half the digits near +-1 (an axis within 1e-8 of the
+    # yz-plane or of z is rotated about an axis tilted by up to 2e-8 rad), and the
+    # squares under the root over/underflow for axes of length 1e+-160; atan2 of
+    # the components themselves has neither problem
+    bad = [c for c in calls_in(fn) if (call_name(c) or '').split('.')[-1] in ('asin', 'acos')]
+    squares = [n for n in walk_no_nested(fn) if isinstance(n, ast.BinOp) and (
+        (isinstance(n.op, ast.Mult) and norm(n.left) == norm(n.right)
+         and isinstance(n.left, ast.Attribute) and norm(n.left.value) == axis)
+        or (isinstance(n.op, ast.Pow) and isinstance(n.left, ast.Attribute) and norm(n.left.value) == axis))]
+    ctx.ob('C20.R5', 'angles:well-conditioned', not bad and not squares,
+           'the helper derives its alignment angles without asin/acos of a ratio (%d calls) and without '
+           'squaring axis components (%d products): "exactly the given angle" fails by 1e-8 for axes '
+           'almost in a coordinate plane, and the helper raises or turns the wrong way for very '
+           'short or very long axes' % (len(bad), len(squares)), mod, bad[0] if bad else (squares[0] if squares else fn))
     # the axis is transformed together with the vector by each aligning rotation
     for node in walk_no_nested(fn):
         if isinstance(node, ast.If):
